@@ -786,8 +786,69 @@ def shape_case(ctx, s1, s2):
     check_case(ctx, {'agg': a, 'pairs': [[a, '>0'], [b, '<3']], 'tie': s1 == (2, 2) and s2[0] == 3})
 
 
+TILDE_RANGE = (('what?',), ('what~?',), ('what~a',), ('whatx',), ('WHAT?',), ('a*b',), ('a~*b',), ('axxb',),
+               ('a~xb',), ('~',), ('a~~b',), ('a~b',), (5,), (None,), ('',))
+TILDE_CRITERIA = ['what~?', 'a~*b', 'a~~b', '=what~?', '<>what~?', '<>a~*b', 'w*~?', '~?*', 'a~*?']
+
+
+def _wild(pattern, text, escapes):
+    """does the text match the pattern?  escapes=True: ~? ~* ~~ denote the character itself"""
+    toks, i = [], 0
+    while i < len(pattern):
+        c = pattern[i]
+        if escapes and c == '~' and i + 1 < len(pattern) and pattern[i + 1] in '?*~':
+            toks.append(('lit', pattern[i + 1]))
+            i += 2
+            continue
+        toks.append(('one',) if c == '?' else ('any',) if c == '*' else ('lit', c))
+        i += 1
+
+    def rec(ti, si):
+        if ti == len(toks):
+            return si == len(text)
+        t = toks[ti]
+        if t[0] == 'any':
+            return any(rec(ti + 1, k) for k in range(si, len(text) + 1))
+        if si >= len(text):
+            return False
+        if t[0] == 'one' or t[1].lower() == text[si].lower():
+            return rec(ti + 1, si + 1)
+        return False
+    return rec(0, 0)
+
+
+def tilde_case(ctx, crit):
+    """the statement does not mention '~'.  pycel documents it as the escape for ? and *; whichever reading
+    an implementation takes, it must take ONE reading for the whole range: the count has to be the count
+    under 'escape' or the count under 'ordinary character' (COUNTIF, and the =x / <>x complement)."""
+    negate = crit.startswith('<>')
+    pat = crit[2:] if negate else crit[1:] if crit.startswith('=') else crit
+    out = lib.call('countif', TILDE_RANGE, crit)
+    ctx.count('tilde-cases')
+    ctx.case(('tilde', crit))
+    case = {'kind': 'tilde', 'crit': crit}
+    if out[0] != 'v' or isinstance(out[1], bool) or not isinstance(out[1], (int, float)):
+        ctx.violation('tilde-criterion/raises-or-non-number', f'COUNTIF(range, {crit!r}) gives {out!r}', case)
+        return
+    counts = set()
+    for escapes in (True, False):
+        n = 0
+        for (cell,) in TILDE_RANGE:
+            hit = isinstance(cell, str) and _wild(pat, cell, escapes)
+            n += (not hit) if negate else hit
+        counts.add(n)
+    if out[1] not in counts:
+        ctx.violation('tilde-criterion/count-fits-neither-reading',
+                      f'COUNTIF({[c for (c,) in TILDE_RANGE]!r}, {crit!r}) = {out[1]!r}; reading ~ as the escape or '
+                      f'as an ordinary character gives {sorted(counts)}', case)
+
+
 def run(ctx):
     i = 0
+    for crit in TILDE_CRITERIA:
+        i += 1
+        if ctx.mine(i):
+            tilde_case(ctx, crit)
     for cell in POOL:
         for crit in CRITERIA:
             i += 1
@@ -816,7 +877,9 @@ def run(ctx):
 
 
 def replay(ctx, case):
-    if case.get('kind') == 'table':
+    if case.get('kind') == 'tilde':
+        tilde_case(ctx, case['crit'])
+    elif case.get('kind') == 'table':
         table_case(ctx, case['pairs'][0][0][0][0], case['pairs'][0][1])
     else:
         check_case(ctx, case)
